@@ -5,7 +5,7 @@ ID="$1"; CHK="$2"; shift 2
 D=$(mktemp -d /dev/shm/vsim-ref-XXXXXX) || exit 2
 cp -r /repo/src "$D/src"; mkdir -p "$D/tests"; ln -s /repo/tests/data "$D/tests/data"
 patch -p1 -s -d "$D" -i /verif/refactors/$ID/patch.diff || { echo "patch does not apply"; rm -rf "$D"; exit 2; }
-cd /verif; VERIF_REPO="$D" VERIF_REPO_SRC="$D/src" ./check $CHK --no-evidence "$@" > /tmp/refactor-$ID-$CHK.out 2>&1; rc=$?
-rm -rf "$D"; rm -f /verif/replays/*.json
+cd /verif; VERIF_REPLAY_DIR="$D/replays" VERIF_REPO="$D" VERIF_REPO_SRC="$D/src" ./check $CHK --no-evidence "$@" > /tmp/refactor-$ID-$CHK.out 2>&1; rc=$?
+rm -rf "$D"
 echo "$ID vs $CHK: exit=$rc $(grep -m1 'violation: oracle' /tmp/refactor-$ID-$CHK.out | cut -c1-160) $(grep -m1 HARNESS /tmp/refactor-$ID-$CHK.out | cut -c1-160)"
 exit $rc
